@@ -208,6 +208,10 @@ func (ch *Chain) BuildClaim(e M) ClaimBytes {
 		}
 	case "ext":
 		proofs = append(proofs, c.h("ext"))
+	case "zeroext": // an all-zero element appended
+		proofs = append(proofs, make([]byte, 32))
+	case "zeropre": // an all-zero element prepended
+		proofs = append([][]byte{make([]byte, 32)}, proofs...)
 	case "len31":
 		proofs = append(proofs, c.h("short")[:31])
 	default:
